@@ -117,6 +117,7 @@ struct Slot {
   uint64_t dseed = 0;
   int nnz = 0;      // sparse patterns: number of non-zero coefficients per limb (0 = dense)
   int owner = -1;   // task that produces it (-1 = setup/main)
+  int liballoc = 0; // allocate through the library's own new_*/delete_* (opaque FFT64 objects only)
 };
 
 enum Op {
@@ -229,6 +230,7 @@ struct GenCfg {
   int big_n_pct = 5;            // chance of a large dimension
   int max_big_log2n = 12;
   bool history_mode = false;    // C15: one totally ordered history, each call issued by a random thread
+  bool lib_alloc_slots = false; // some opaque objects come from new_vec_znx_dft/big, new_svp_ppol, new_vmp_pmat
   bool shared_setup = false;    // C12: prepared objects and inputs produced in a setup section shared by tasks
   bool thorough = false;
 };
